@@ -2,6 +2,7 @@
 import glob
 import itertools
 import os
+import re
 import random
 import shutil
 import subprocess
@@ -35,7 +36,7 @@ def build_lines(st, decorate, rnd):
             tags = [[], ["ll:i:5"], ["lz:Z:x:y", "ll:i:7"]][k % 3]
         Ls.append("\t".join(["L", a, ao, b, bo, ov] + tags))
     if decorate:
-        other = ["H\tVN:Z:1.0", "# a comment line", "P\tp1\ts8+,s9+\t*", "W\tsample\t0\tchrA\t0\t10\t>s8>s9"]
+        other = ["H\tVN:Z:1.0", "# a comment line", "", "P\tp1\ts8+,s9+\t*", "W\tsample\t0\tchrA\t0\t10\t>s8>s9"]
         inner = [n["id"] for n in st["nodes"] if n["sr"] == 1]
         if inner:
             Ls.append(f"L\t{inner[0]}\t+\t{inner[0]}\t+\t0M\tsl:i:1")  # a self-link on an alternative allele
@@ -134,6 +135,11 @@ def run_session(job):
                         stale = read_text(src["out_gfas"][0]).splitlines()
                         rnd.shuffle(stale)
                         runs.append(one_run(d, "st1", stale, order, True, False, False, "stale"))
+                        # tags left by a run on an earlier version of the graph: complete, but not matching this graph
+                        def scramble(l):
+                            l = re.sub(r"BO:i:(\d+)", lambda m: "BO:i:%d" % (97 - int(m.group(1))), l)
+                            return re.sub(r"NO:i:(\d+)", lambda m: "NO:i:%d" % ((int(m.group(1)) + 2) % 3), l)
+                        runs.append(one_run(d, "st2", [scramble(l) for l in stale], order, False, False, False, "stale"))
                     if opts.get("hashseeds"):
                         for hs in opts["hashseeds"]:
                             runs.append(one_run(d, f"h{hs}", base, order, True, False, False, "hashseed", hashseed=hs))
